@@ -229,11 +229,17 @@ func newSystem(c config) (*system, error) {
 		if k == 1 {
 			st.base = 1<<20 + int64(c.Start+0x4000) // a different phase on the second stream
 		}
-		st.rd = i.BindRemoteStream(&interceptor.StreamInfo{SSRC: st.ssrc, RTCPFeedback: hk.NackFB}, st.feed)
+		fb := hk.NackFB
+		if c.Start >= 65000 {
+			// the same negotiation written in another order, among other feedback types (configurations that start at 65000 or above)
+			fb = []interceptor.RTCPFeedback{{Type: "goog-remb"}, {Type: "ccm", Parameter: "fir"}, {Type: "nack", Parameter: "pli"}, {Type: "nack"}, {Type: "transport-cc"}}
+		}
+		st.rd = i.BindRemoteStream(&interceptor.StreamInfo{SSRC: st.ssrc, RTCPFeedback: fb}, st.feed)
 		s.st = append(s.st, st)
 	}
 	s.plain = &stream{ssrc: 0x2000, feed: &hk.FeedReader{}, m: newModel()}
-	s.plain.rd = i.BindRemoteStream(&interceptor.StreamInfo{SSRC: s.plain.ssrc}, s.plain.feed)
+	// it negotiated picture loss indication ("nack pli") but not generic NACK
+	s.plain.rd = i.BindRemoteStream(&interceptor.StreamInfo{SSRC: s.plain.ssrc, RTCPFeedback: []interceptor.RTCPFeedback{{Type: "nack", Parameter: "pli"}, {Type: "ccm", Parameter: "fir"}}}, s.plain.feed)
 	// the non-NACK stream has a gap from the start
 	for _, q := range []uint16{5, 9} {
 		s.plain.feed.Next = hk.RawRTP(96, q, 0, s.plain.ssrc, nil)
